@@ -21,13 +21,31 @@ func (pt *pathTracker) stillOnUnfollowedRemotePath(newPath datamodel.Path) bool 
 	if pt.lastUnfollowedRemotePath.Len() == 0 {
 		return false
 	}
-	// are we still on it?
-	if newPath.Len() <= pt.lastUnfollowedRemotePath.Len() {
+	// are we still on it? only links strictly below the unfollowed link are:
+	// the unfollowed path must be a proper prefix of the new path (comparing
+	// lengths alone mistakes a deeper link in a later sibling for a descendant)
+	if !isProperPrefix(pt.lastUnfollowedRemotePath, newPath) {
 		// if not, reset to no known missing remote path
 		pt.lastUnfollowedRemotePath = datamodel.NewPath(nil)
 		return false
 	}
 	// otherwise we're on a missing path
+	return true
+}
+
+// isProperPrefix reports whether every segment of prefix matches the leading
+// segments of p and p is strictly longer
+func isProperPrefix(prefix datamodel.Path, p datamodel.Path) bool {
+	prefixSegments := prefix.Segments()
+	segments := p.Segments()
+	if len(segments) <= len(prefixSegments) {
+		return false
+	}
+	for i, seg := range prefixSegments {
+		if !seg.Equals(segments[i]) {
+			return false
+		}
+	}
 	return true
 }
 
